@@ -23,7 +23,8 @@ type aval interface{}
 
 type (
 	aNil     struct{}
-	aKey     struct{ valid bool }
+	aKey     struct{ valid, other bool } // other: a key different from the tracked one
+	aLen     struct{ min int64 }         // len of a container that also holds untracked keys: any value >= min
 	aBytes   struct{ tag int }
 	aErr     struct{ kind string }
 	aUnknown struct{ why string }
@@ -69,11 +70,16 @@ func (s ledgerState) String() string {
 	return fmt.Sprintf("fin{got:%d upd:%d rem:%d} mem{got:%d upd:%d rem:%d} tree:%d", s.fin.got, s.fin.upd, s.fin.rem, s.mem.got, s.mem.upd, s.mem.rem, s.tree)
 }
 
+// otherBase: item / byte tags at or above it belong to a key other than the tracked one.
+const otherBase = 1000
+
 type machine struct {
 	w      *World
 	tree   *int
 	steps  int
 	undec  string
+	oracle []bool   // answers for nondeterministic choices, in order of occurrence
+	used   int      // choices consumed by this run
 	ledger *astruct // FinalityLedger object
 	finMI  *astruct
 	memMI  *astruct
@@ -99,12 +105,12 @@ func newMemItems(o overlay) *astruct {
 	}
 	var rem []aval
 	for i := 0; i < o.rem; i++ {
-		rem = append(rem, aKey{true})
+		rem = append(rem, aKey{valid: true})
 	}
 	if remIsSet {
 		set := &amap{}
 		if o.rem > 0 {
-			set = &amap{has: true, v: aKey{true}}
+			set = &amap{has: true, v: aKey{valid: true}}
 		}
 		return &astruct{name: "memItems", fields: []*acell{{v: mk(o.got)}, {v: mk(o.upd)}, {v: set}}}
 	}
@@ -140,7 +146,11 @@ func readMemItems(s *astruct) (overlay, error) {
 			o.rem = 1
 		}
 	case aSlice:
-		o.rem = len(r.elems)
+		for _, e := range r.elems {
+			if k, isK := e.(aKey); !isK || !k.other {
+				o.rem++ // occurrences of the tracked key only
+			}
+		}
 	case aNil:
 		o.rem = 0
 	default:
@@ -233,7 +243,7 @@ func (m *machine) get(f *frame, v ssa.Value) aval {
 		if x.Value == nil {
 			// zero value: nil for pointers/interfaces/slices/maps, zero key for arrays
 			if _, ok := x.Type().Underlying().(*types.Array); ok {
-				return aKey{false}
+				return aKey{}
 			}
 			return aNil{}
 		}
@@ -266,6 +276,47 @@ func (m *machine) get(f *frame, v ssa.Value) aval {
 }
 
 func isNilA(v aval) bool { _, ok := v.(aNil); return ok }
+
+// choose answers a nondeterministic choice (presence of an untracked key in a
+// container, a comparison with the size of a container). The driver re-runs the
+// operation with every answer vector.
+func (m *machine) choose() bool {
+	v := false
+	if m.used < len(m.oracle) {
+		v = m.oracle[m.used]
+	}
+	m.used++
+	return v
+}
+
+func isOtherKey(v aval) bool {
+	switch k := v.(type) {
+	case aKey:
+		return k.other
+	case aKeySl:
+		if kk, ok := k.c.v.(aKey); ok {
+			return kk.other
+		}
+	}
+	return false
+}
+
+// otherElem: what a container holds for an untracked key that is present.
+func otherElem(mapType types.Type) aval {
+	if mt, ok := mapType.Underlying().(*types.Map); ok {
+		switch e := mt.Elem().Underlying().(type) {
+		case *types.Basic:
+			if e.Kind() == types.Bool {
+				return true
+			}
+		case *types.Struct:
+			return aNil{}
+		case *types.Array:
+			return aKey{valid: true, other: true}
+		}
+	}
+	return &aitem{tag: otherBase}
+}
 
 // run interprets fn with args and returns its results.
 func (m *machine) run(fn *ssa.Function, args []aval, depth int) []aval {
@@ -301,7 +352,7 @@ func (m *machine) run(fn *ssa.Function, args []aval, depth int) []aval {
 				t := deref(x.Type())
 				if arr, ok := t.Underlying().(*types.Array); ok {
 					if bt, isB := arr.Elem().Underlying().(*types.Basic); isB && bt.Kind() == types.Uint8 {
-						f.env[x] = &acell{v: aKey{false}, isKey: true}
+						f.env[x] = &acell{v: aKey{}, isKey: true}
 					} else {
 						f.env[x] = &acell{v: aNil{}} // one-element varargs backing array
 					}
@@ -417,11 +468,17 @@ func (m *machine) run(fn *ssa.Function, args []aval, depth int) []aval {
 					return nil
 				}
 				var v aval = aNil{}
-				if mp.has {
+				has := mp.has
+				if isOtherKey(m.get(f, x.Index)) {
+					// an untracked key: present or not
+					if has = m.choose(); has {
+						v = otherElem(x.X.Type())
+					}
+				} else if mp.has {
 					v = mp.v
 				}
 				if x.CommaOk {
-					f.env[x] = aTuple{v, mp.has}
+					f.env[x] = aTuple{v, has}
 				} else {
 					f.env[x] = v
 				}
@@ -431,9 +488,20 @@ func (m *machine) run(fn *ssa.Function, args []aval, depth int) []aval {
 					m.fail("map update on %T at %s", m.get(f, x.Map), m.w.InstrPos(in))
 					return nil
 				}
+				if isOtherKey(m.get(f, x.Key)) {
+					break // an untracked entry: the tracked one is untouched
+				}
 				mp.has, mp.v = true, m.get(f, x.Value)
 			case *ssa.MakeMap:
 				f.env[x] = &amap{}
+			case *ssa.MakeSlice:
+				// make([]T, 0, cap): an empty list (the capacity is not observable)
+				if n, ok := m.get(f, x.Len).(int64); ok && n == 0 {
+					f.env[x] = aSlice{}
+				} else {
+					m.fail("make of a slice with a length that is not the constant 0 at %s", m.w.InstrPos(in))
+					return nil
+				}
 			case *ssa.MakeInterface:
 				f.env[x] = m.get(f, x.X)
 			case *ssa.ChangeType:
@@ -456,10 +524,10 @@ func (m *machine) run(fn *ssa.Function, args []aval, depth int) []aval {
 					return nil
 				}
 				if it.done || !it.m.has {
-					f.env[x] = aTuple{false, aKey{false}, aNil{}}
+					f.env[x] = aTuple{false, aKey{}, aNil{}}
 				} else {
 					it.done = true
-					f.env[x] = aTuple{true, aKey{true}, it.m.v}
+					f.env[x] = aTuple{true, aKey{valid: true}, it.m.v}
 				}
 			case *ssa.Defer, *ssa.RunDefers, *ssa.DebugRef:
 				if d, ok := in.(*ssa.Defer); ok {
@@ -514,7 +582,67 @@ func isStructField(fa *ssa.FieldAddr) bool {
 	return ok
 }
 
+// cmpLen decides `n op c` for an unknown n >= min; where both answers are
+// possible the choice is nondeterministic.
+func (m *machine) cmpLen(min int64, op token.Token, c int64) aval {
+	switch op {
+	case token.GEQ:
+		if c <= min {
+			return true
+		}
+	case token.GTR:
+		if c < min {
+			return true
+		}
+	case token.LSS:
+		if c <= min {
+			return false
+		}
+	case token.LEQ:
+		if c < min {
+			return false
+		}
+	case token.EQL:
+		if c < min {
+			return false
+		}
+	case token.NEQ:
+		if c < min {
+			return true
+		}
+	default:
+		return aUnknown{"arithmetic on a container size"}
+	}
+	return m.choose()
+}
+
+func flipCmp(op token.Token) token.Token {
+	switch op {
+	case token.LSS:
+		return token.GTR
+	case token.GTR:
+		return token.LSS
+	case token.LEQ:
+		return token.GEQ
+	case token.GEQ:
+		return token.LEQ
+	}
+	return op
+}
+
 func (m *machine) binop(x *ssa.BinOp, a, b aval) aval {
+	if al, ok := a.(aLen); ok {
+		if c, ok := b.(int64); ok {
+			return m.cmpLen(al.min, x.Op, c)
+		}
+		return aUnknown{"container size"}
+	}
+	if bl, ok := b.(aLen); ok {
+		if c, ok := a.(int64); ok {
+			return m.cmpLen(bl.min, flipCmp(x.Op), c)
+		}
+		return aUnknown{"container size"}
+	}
 	switch av := a.(type) {
 	case int64:
 		bv, ok := b.(int64)
@@ -550,7 +678,7 @@ func (m *machine) binop(x *ssa.BinOp, a, b aval) aval {
 		}
 	case aKey:
 		if bk, ok := b.(aKey); ok {
-			eq := av.valid == bk.valid
+			eq := av.valid == bk.valid && av.other == bk.other
 			if x.Op == token.EQL {
 				return eq
 			}
@@ -602,7 +730,7 @@ func (m *machine) call(f *frame, c *ssa.Call, depth int) aval {
 			if it == nil {
 				return m.fail("Key() on %T at %s", recv, m.w.InstrPos(c))
 			}
-			return aKey{it.tag >= 0}
+			return aKey{valid: it.tag >= 0, other: it.tag >= otherBase}
 		case "Encode":
 			if it == nil {
 				return m.fail("Encode() on %T at %s", recv, m.w.InstrPos(c))
@@ -629,10 +757,11 @@ func (m *machine) call(f *frame, c *ssa.Call, depth int) aval {
 			case aNil:
 				return int64(0)
 			case *amap:
+				// the container also holds any number of untracked keys
 				if s.has {
-					return int64(1)
+					return aLen{1}
 				}
-				return int64(0)
+				return aLen{0}
 			}
 			return m.fail("len of %T at %s", args[0], m.w.InstrPos(c))
 		case "append":
@@ -667,6 +796,9 @@ func (m *machine) call(f *frame, c *ssa.Call, depth int) aval {
 			mp, ok := args[0].(*amap)
 			if !ok {
 				return m.fail("delete on %T at %s", args[0], m.w.InstrPos(c))
+			}
+			if len(args) > 1 && isOtherKey(args[1]) {
+				return aNil{}
 			}
 			mp.has, mp.v = false, nil
 			return aNil{}
@@ -714,6 +846,12 @@ func (m *machine) call(f *frame, c *ssa.Call, depth int) aval {
 	case pkg == "github.com/cosmos/iavl":
 		switch name {
 		case "Get":
+			if len(args) > 1 && isOtherKey(args[1]) {
+				if m.choose() {
+					return aTuple{aBytes{otherBase}, aNil{}}
+				}
+				return aTuple{aNil{}, aNil{}}
+			}
 			if ks, ok := args[1].(aKeySl); !ok || !keyValid(ks) {
 				return m.fail("tree.Get with a key that is not the tracked key at %s", m.w.InstrPos(c))
 			}
@@ -722,6 +860,9 @@ func (m *machine) call(f *frame, c *ssa.Call, depth int) aval {
 			}
 			return aTuple{aBytes{*m.tree}, aNil{}}
 		case "Set":
+			if len(args) > 1 && isOtherKey(args[1]) {
+				return aTuple{m.choose(), aNil{}}
+			}
 			ks, ok := args[1].(aKeySl)
 			bz, ok2 := args[2].(aBytes)
 			if !ok || !ok2 || !keyValid(ks) {
@@ -731,6 +872,9 @@ func (m *machine) call(f *frame, c *ssa.Call, depth int) aval {
 			*m.tree = bz.tag
 			return aTuple{upd, aNil{}}
 		case "Remove":
+			if len(args) > 1 && isOtherKey(args[1]) {
+				return aTuple{aNil{}, m.choose(), aNil{}}
+			}
 			ks, ok := args[1].(aKeySl)
 			if !ok || !keyValid(ks) {
 				return m.fail("tree.Remove with a key that is not the tracked key at %s", m.w.InstrPos(c))
